@@ -64,50 +64,103 @@ func c10(c *core.Ctx, r *core.Report) {
 	r.NotDecided = []string{"within-1 accuracy of the interpolated value", "values never outside the stage's two targets", "monotonicity within a stage", "exact end instant of the ramp"}
 	spkg := "internal/trigger/staged"
 
-	rule(r, "C10.R1", "stage chaining: RateCalculator.add stores StartTarget = previous stored stage's EndTarget, or the constant 0 for the first stage, before appending", func() {
-		add := c.MustFn(spkg, "RateCalculator.add")
-		var stores []*ssa.Store
-		an.Instrs(add, func(in ssa.Instruction) {
-			if st, ok := in.(*ssa.Store); ok {
-				if f := an.FieldOfAddr(st.Addr); f != nil && f.Name() == "StartTarget" {
-					stores = append(stores, st)
-				}
+	rule(r, "C10.R1", "stage chaining: when a stage is appended its StartTarget is the previous stored stage's EndTarget, or the constant 0 when no stage is stored yet; every parsed stage is chained exactly once, in order", func() {
+		// the chaining function: the function of the package that stores StartTarget
+		var add *ssa.Function
+		for _, fn := range c.AllFuncs {
+			if core.RelPkg(fn) != spkg {
+				continue
 			}
-		})
-		if !r.Floor("stores to StartTarget", len(stores), 2) {
+			an.Instrs(fn, func(in ssa.Instruction) {
+				if st, ok := in.(*ssa.Store); ok {
+					if f := an.FieldOfAddr(st.Addr); f != nil && f.Name() == "StartTarget" && an.StructLiteralOf(st.Addr.(*ssa.FieldAddr).X) == nil || ok && func() bool {
+						f := an.FieldOfAddr(st.Addr)
+						return f != nil && f.Name() == "StartTarget"
+					}() {
+						add = fn
+					}
+				}
+			})
+		}
+		if add == nil {
+			r.Violation("chaining", "-", "no function sets a stage's StartTarget: stages are not chained")
 			return
 		}
-		sawZero, sawPrev := false, false
-		for _, st := range stores {
-			d := an.D().Of(st.Val)
-			// which branch: guarded by len(stages)==0 ?
-			first := false
-			for _, g := range an.GuardsOf(st.Block()) {
-				gd := an.D().Of(g.Cond)
-				if strings.Contains(gd, "len($s.stages)") && strings.Contains(gd, "== 0") && g.Polarity {
-					first = true
-				}
-				if strings.Contains(gd, "len($s.stages)") && (strings.Contains(gd, "!= 0") || strings.Contains(gd, "> 0")) && !g.Polarity {
-					first = true
+		paths, err := an.DecisionPaths(add, 64)
+		if err != nil {
+			r.Undecided(core.FuncName(add)+"#paths", c.Pos(add.Pos()), "%v", err)
+			return
+		}
+		sawFirst, sawChain := false, false
+		for _, p := range paths {
+			if p.Ret == nil {
+				continue
+			}
+			var last *ssa.Store
+			for _, b := range p.Blocks {
+				for _, in := range b.Instrs {
+					if st, ok := in.(*ssa.Store); ok {
+						if f := an.FieldOfAddr(st.Addr); f != nil && f.Name() == "StartTarget" {
+							last = st
+						}
+					}
 				}
 			}
-			if first {
-				sawZero = true
-				r.Check(d == "0", "RateCalculator.add#first", an.Pos(c, st), "first stage starts at 0", "the first stage starts at "+d+" instead of 0")
+			empty, known := false, false
+			for _, l := range p.Lits {
+				bo, ok := l.Cond.(*ssa.BinOp)
+				if !ok || an.D().Of(bo.X) != "len($s.stages)" {
+					continue
+				}
+				k, isK := constInt(bo.Y)
+				if !isK {
+					continue
+				}
+				known = true
+				switch {
+				case bo.Op == token.EQL && k == 0:
+					empty = l.Val
+				case bo.Op == token.NEQ && k == 0, bo.Op == token.GTR && k == 0, bo.Op == token.GEQ && k == 1:
+					empty = !l.Val
+				case bo.Op == token.LSS && k == 1, bo.Op == token.LEQ && k == 0:
+					empty = l.Val
+				default:
+					known = false
+				}
+			}
+			if !known {
+				r.Undecided(core.FuncName(add)+"#emptiness", an.Pos(c, p.Ret), "a path of the chaining function does not test whether a stage is already stored")
+				continue
+			}
+			val := "<never set>"
+			if last != nil {
+				val = an.D().Of(last.Val)
+			}
+			if empty {
+				sawFirst = true
+				r.Check(val == "0" || last == nil && false, core.FuncName(add)+"#first", an.Pos(c, p.Ret), "first stage starts at 0", "the first stage starts at "+val+" instead of 0")
 			} else {
-				sawPrev = true
-				r.Check(d == "$s.stages[(len($s.stages) - 1)].EndTarget", "RateCalculator.add#chain", an.Pos(c, st), "StartTarget ← "+d, "a stage's start target is "+d+", not the previous stage's end target: the profile jumps at the stage boundary")
+				sawChain = true
+				r.Check(val == "$s.stages[(len($s.stages) - 1)].EndTarget", core.FuncName(add)+"#chain", an.Pos(c, p.Ret), "StartTarget ← "+val, "a stage's start target is "+val+", not the previous stage's end target: the profile jumps at the stage boundary")
 			}
 		}
-		r.Check(sawZero && sawPrev, "RateCalculator.add#both", c.Pos(add.Pos()), "both the first-stage and the chained case are handled", "chaining does not distinguish the first stage from later ones")
-		// the appended value is the modified stage, every parsed stage is added in order
-		ar := c.MustFn(spkg, "RateCalculator.addRange")
-		ok := false
-		for _, call := range an.CallsTo(ar, func(f *ssa.Function) bool { return f == add }) {
-			loop, _ := an.NaturalLoopOf(call.Block())
-			ok = loop != nil && !an.OnCycleAvoiding(call, loopHeaderOf(call)) && len(an.GuardsOf(call.Block())) <= 1
+		r.Check(sawFirst && sawChain, core.FuncName(add)+"#both", c.Pos(add.Pos()), "both the first-stage and the chained case are handled", "chaining does not distinguish the first stage from later ones")
+		// every parsed stage is chained once, in order
+		sites := an.CallSitesOf(c, add)
+		okAll := len(sites) == 1
+		for _, call := range sites {
+			arg := an.Strip(call.Common().Args[1])
+			ia, isIA := arg.(*ssa.IndexAddr)
+			ok := isIA && isCounter(ia.Index)
+			if ok {
+				_, ok = upperGuard(call.Block(), ia.Index, ia.X, func(a, b ssa.Value) bool { return a == b })
+			}
+			if ok && an.OnCycleAvoiding(call, loopHeaderOf(call)) {
+				ok = false
+			}
+			okAll = okAll && ok
 		}
-		r.Check(ok, "RateCalculator.addRange#all", c.Pos(ar.Pos()), "every stage is added once, in order", "not every parsed stage is chained exactly once")
+		r.Check(okAll, core.FuncName(add)+"#all-stages", c.Pos(add.Pos()), "every stage of the list is chained exactly once, in list order", "the chaining function is not applied once to every stage in order")
 	})
 
 	rule(r, "C10.R2", "MaxDuration accumulates every stage's Duration exactly once (an unconditional += in a loop over all stages); CalculateStagedRate reports it as Rates.Duration and the staged trigger's Duration is that field", func() {
@@ -222,11 +275,11 @@ func c10(c *core.Ctx, r *core.Report) {
 		past := 0
 		for _, ret := range an.Returns(rate) {
 			for _, g := range an.GuardsOf(ret.Block()) {
-				gd := an.D().Of(g.Cond)
-				if strings.Contains(gd, "$s.current >") && strings.Contains(gd, "len($s.stages)") && g.Polarity {
+				if pastEndGuard(g) {
 					past++
 					d := an.D().Of(ret.Results[0])
 					r.Check(d == "0", sprintf("RateCalculator.Rate#past-end%d", past), an.Pos(c, ret), "returns 0 once all stages elapsed", "after all stages have elapsed the staged profile returns "+d+" instead of 0")
+					break
 				}
 			}
 		}
@@ -259,57 +312,76 @@ func c10(c *core.Ctx, r *core.Report) {
 		}
 	})
 
-	rule(r, "C10.R5", "a stage is left only when the elapsed time since its start reaches its Duration: the advance test is (now − start) + c > Duration with c ≤ 1 ns, or (now − start) ≥ Duration", func() {
+	rule(r, "C10.R5", "a stage is left only when the elapsed time since its start reaches its Duration: the cursor is advanced under (now − start) + c > Duration with c ≤ 1 ns, or (now − start) ≥ Duration", func() {
+		cur := c.Field(spkg, "RateCalculator", "current")
 		n := 0
-		for _, b := range rate.Blocks {
-			iff, ok := b.Instrs[len(b.Instrs)-1].(*ssa.If)
-			if !ok {
+		for _, st := range (cell{name: "current", fld: cur}).stores(rate) {
+			bo, isAdd := st.Val.(*ssa.BinOp)
+			if !isAdd || bo.Op != token.ADD {
 				continue
 			}
-			bo, ok := iff.Cond.(*ssa.BinOp)
-			if !ok {
-				continue
-			}
-			d := an.D().Of(bo)
-			if !strings.Contains(d, ".Duration") || !strings.Contains(d, "(time.Time).Sub(") {
-				continue
-			}
-			loop, _ := an.NaturalLoopOf(b)
-			if loop == nil {
-				continue
-			}
-			n++
-			lhs, rhs, op := bo.X, bo.Y, bo.Op
-			if strings.Contains(an.D().Of(lhs), ".Duration") && !strings.Contains(an.D().Of(rhs), ".Duration") {
-				lhs, rhs, op = rhs, lhs, flipOp[op]
-			}
-			slack := int64(0)
-			okShape := true
-			if add, isAdd := lhs.(*ssa.BinOp); isAdd && add.Op == token.ADD {
-				if k, isK := add.Y.(*ssa.Const); isK {
-					slack = k.Int64()
-					lhs = add.X
-				} else if k, isK := add.X.(*ssa.Const); isK {
-					slack = k.Int64()
-					lhs = add.Y
-				} else {
+			// the comparison of elapsed time with the stage's duration among the guards of the increment
+			for _, g := range an.GuardsOf(st.Block()) {
+				cmp, ok := g.Cond.(*ssa.BinOp)
+				if !ok {
+					continue
+				}
+				d := an.D().Of(cmp)
+				if !strings.Contains(d, ".Duration") || !strings.Contains(d, "(time.Time).Sub(") {
+					continue
+				}
+				n++
+				lhs, rhs, op := cmp.X, cmp.Y, cmp.Op
+				if strings.Contains(an.D().Of(lhs), ".Duration") && !strings.Contains(an.D().Of(rhs), ".Duration") {
+					lhs, rhs, op = rhs, lhs, flipOp[op]
+				}
+				if !g.Polarity {
+					op = map[token.Token]token.Token{token.GTR: token.LEQ, token.GEQ: token.LSS, token.LSS: token.GEQ, token.LEQ: token.GTR}[op]
+				}
+				slack := int64(0)
+				okShape := true
+				if add, isAdd := lhs.(*ssa.BinOp); isAdd && add.Op == token.ADD {
+					if k, isK := constInt(add.Y); isK {
+						slack, lhs = k, add.X
+					} else if k, isK := constInt(add.X); isK {
+						slack, lhs = k, add.Y
+					} else {
+						okShape = false
+					}
+				}
+				okShape = okShape && strings.HasPrefix(an.D().Of(lhs), "(time.Time).Sub($now, $s.start)") && strings.HasSuffix(an.D().Of(rhs), "$s.stages[$s.current].Duration")
+				switch op {
+				case token.GTR:
+					okShape = okShape && slack <= 1 && slack >= 0
+				case token.GEQ:
+					okShape = okShape && slack <= 0
+				default:
 					okShape = false
 				}
+				r.Check(okShape, "RateCalculator.Rate#advance", an.Pos(c, g.If), sprintf("cursor advances when %s is %v", d, g.Polarity), sprintf("the cursor is advanced when %s is %v: a stage is abandoned before its duration has elapsed (or compared against the wrong stage), so queries near the boundary are extrapolated from the next stage", d, g.Polarity))
 			}
-			ld := an.D().Of(lhs)
-			okShape = okShape && strings.HasPrefix(ld, "(time.Time).Sub($now, $s.start)") && strings.HasSuffix(an.D().Of(rhs), "$s.stages[$s.current].Duration")
-			switch op {
-			case token.GTR:
-				okShape = okShape && slack <= 1 && slack >= 0
-			case token.GEQ:
-				okShape = okShape && slack <= 0
-			default:
-				okShape = false
-			}
-			r.Check(okShape, "RateCalculator.Rate#advance", an.Pos(c, iff), "advance test "+d, "the stage-advance test is "+d+": a stage is abandoned before its duration has elapsed (or compared against the wrong stage), so queries near the boundary are extrapolated from the next stage")
 		}
 		r.Floor("stage-advance tests", n, 1)
 	})
+}
+
+// pastEndGuard: the guard states that the stage cursor is past the last stage.
+func pastEndGuard(g an.Guard) bool {
+	bo, ok := g.Cond.(*ssa.BinOp)
+	if !ok {
+		return false
+	}
+	x, y := an.D().Of(bo.X), an.D().Of(bo.Y)
+	if x != "$s.current" {
+		return false
+	}
+	switch {
+	case y == "(len($s.stages) - 1)" && bo.Op == token.GTR, y == "len($s.stages)" && bo.Op == token.GEQ:
+		return g.Polarity
+	case y == "(len($s.stages) - 1)" && bo.Op == token.LEQ, y == "len($s.stages)" && bo.Op == token.LSS:
+		return !g.Polarity
+	}
+	return false
 }
 
 func phiCycle(p *ssa.Phi, v ssa.Value) bool {
@@ -324,32 +396,69 @@ func phiCycle(p *ssa.Phi, v ssa.Value) bool {
 // ---------------------------------------------------------------- C11
 
 func c11(c *core.Ctx, r *core.Report) {
-	r.Explanation = "The numerical clauses (delivered volume within discretisation error, peak position, weight scaling) are properties of numerical integration and are NOT decided. Decided structurally: (R1) Calculator.For carries the fraction — due = rate + remainder, returns int(floor(due)), stores remainder = due − floor(due), exactly once on every path; " +
+	r.Explanation = "The numerical clauses (delivered volume within discretisation error, peak position, weight scaling) are properties of numerical integration and are NOT decided. Decided structurally: (R1) the rate method of the gaussian calculator carries the fraction — due = rate + remainder, returns int(floor(due)), stores remainder = due − floor(due), exactly once on every path; " +
 		"(R2) the returned request is int(floor(x)) of a sum of terms that are non-negative under the printed assumptions; (R3) the density multiplier is volume × frequency divided, unconditionally, by the probability mass inside the window (CDF at window−frequency minus CDF at 0)."
 	r.NotDecided = []string{"delivered volume per window", "no tick above the peak tick + 1", "weight scaling by window index (arithmetic on time)"}
 	gpkg := "internal/trigger/gaussian"
-	forFn := c.MustFn(gpkg, "Calculator.For")
+	// roles: the rate method of Calculator (func(time.Time) int), its carry cell (the float field it both reads and
+	// writes) and the scale field (the factor of the density)
+	var forFn *ssa.Function
+	for _, fn := range c.AllFuncs {
+		if core.RelPkg(fn) == gpkg && fn.Parent() == nil && fn.Signature.Recv() != nil && an.IsNamed(fn.Signature.Recv().Type(), core.ModPath+"/"+gpkg, "Calculator") &&
+			fn.Signature.Params().Len() == 1 && an.IsNamed(fn.Signature.Params().At(0).Type(), "time", "Time") && fn.Signature.Results().Len() == 1 && isIntType(fn.Signature.Results().At(0).Type()) {
+			forFn = fn
+		}
+	}
+	if forFn == nil {
+		r.Rule("C11.R1", "anchor")
+		r.Undecided("anchor", "-", "rate method of gaussian.Calculator not found")
+		return
+	}
+	var carry cell
+	var scaleFld *types.Var
+	st := c.Named(gpkg, "Calculator").Underlying().(*types.Struct)
+	for i := 0; i < st.NumFields(); i++ {
+		f := st.Field(i)
+		k := cell{name: f.Name(), fld: f}
+		if len(k.stores(forFn)) > 0 && len(k.loads(forFn)) > 0 {
+			carry = k
+		}
+	}
+	an.Instrs(forFn, func(in ssa.Instruction) {
+		bo, ok := in.(*ssa.BinOp)
+		if !ok || bo.Op != token.MUL {
+			return
+		}
+		for _, pair := range [][2]ssa.Value{{bo.X, bo.Y}, {bo.Y, bo.X}} {
+			if call, ok := noConv(pair[0]).(*ssa.Call); ok && an.Callee(call) != nil && an.Callee(call).Name() == "PDF" {
+				if f, owner := an.TerminalField(pair[1]); f != nil && an.IsNamed(owner, core.ModPath+"/"+gpkg, "Calculator") {
+					scaleFld = f
+				}
+			}
+		}
+	})
 
-	rule(r, "C11.R1", "fraction carry in Calculator.For (analysis H): due = rate + remainder; return int(floor(due)); remainder' = due − floor(due); exactly once on every path", func() {
-		k := cell{name: "remainder", fld: c.Field(gpkg, "Calculator", "remainder")}
-		if carryTemplate(c, r, forFn, k, "fraction") {
-			// out must be math.Floor(due)
-			for _, st := range k.stores(forFn) {
+	rule(r, "C11.R1", "fraction carry in the calculator's rate method (analysis H): due = rate + remainder; return int(floor(due)); remainder' = due − floor(due); exactly once on every path", func() {
+		if carry.fld == nil {
+			r.Violation(core.FuncName(forFn)+"#carry", c.Pos(forFn.Pos()), "the rate method keeps no fractional remainder between ticks: fractions of the rate are lost on every tick")
+			return
+		}
+		if carryTemplate(c, r, forFn, carry, "fraction") {
+			for _, st := range carry.stores(forFn) {
 				sub := noConv(st.Val).(*ssa.BinOp)
 				call, ok := noConv(sub.Y).(*ssa.Call)
 				okFloor := ok && an.IsFunc(an.Callee(call), "math", "Floor") && noConv(call.Call.Args[0]) == noConv(sub.X)
-				r.Check(okFloor, "Calculator.For#floor", an.Pos(c, st), "emitted = floor(due)", "the emitted part is "+an.D().Of(sub.Y)+", not floor(due): the stored remainder can be negative or exceed 1")
+				r.Check(okFloor, core.FuncName(forFn)+"#floor", an.Pos(c, st), "emitted = floor(due)", "the emitted part is "+an.D().Of(sub.Y)+", not floor(due): the stored remainder can be negative or exceed 1")
 			}
 		}
-		// remainder has no other writer
 		n := 0
 		for _, fn := range c.AllFuncs {
 			if fn == forFn {
 				continue
 			}
-			n += len(k.stores(fn))
+			n += len(carry.stores(fn))
 		}
-		r.Check(n == 0, "Calculator.remainder#writers", c.Pos(forFn.Pos()), "remainder is written only by For", "remainder is also written outside Calculator.For")
+		r.Check(n == 0, "Calculator."+carry.name+"#writers", c.Pos(forFn.Pos()), "the remainder is written only by the rate method", "the remainder is also written outside the rate method")
 	})
 
 	rule(r, "C11.R2", "requests are never negative: the value returned is int(floor(rate + remainder)) where rate is a product/quotient of non-negative factors (assumptions printed) and remainder is a fractional part", func() {
@@ -378,7 +487,6 @@ func c11(c *core.Ctx, r *core.Report) {
 					}
 					return nn(x.Y)
 				case token.SUB:
-					// fractional part idiom x − floor(x)
 					if call, ok := noConv(x.Y).(*ssa.Call); ok && an.IsFunc(an.Callee(call), "math", "Floor") && noConv(call.Call.Args[0]) == noConv(x.X) {
 						return true, "fractional part"
 					}
@@ -391,12 +499,17 @@ func c11(c *core.Ctx, r *core.Report) {
 				}
 			case *ssa.UnOp:
 				if x.Op == token.MUL {
-					d := an.D().Of(x)
-					if strings.HasSuffix(d, ".remainder") {
+					if carry.fld != nil && carry.loadOf(x) {
 						return true, "remainder (inductively a fractional part; zero value initially)"
 					}
-					if strings.HasSuffix(d, ".multiplier") || strings.HasSuffix(d, ".averageWeight") || strings.Contains(d, ".weights[") {
-						return true, "assumed ≥ 0: " + d
+					// configuration-derived float fields / elements of the calculator
+					if f, owner := an.TerminalField(x); f != nil && an.IsNamed(owner, core.ModPath+"/"+gpkg, "Calculator") {
+						return true, "assumed ≥ 0: " + an.D().Of(x)
+					}
+					if ia, ok := x.X.(*ssa.IndexAddr); ok {
+						if f, owner := an.TerminalField(ia.X); f != nil && an.IsNamed(owner, core.ModPath+"/"+gpkg, "Calculator") {
+							return true, "assumed ≥ 0: " + an.D().Of(x)
+						}
 					}
 				}
 			case *ssa.Convert:
@@ -407,38 +520,130 @@ func c11(c *core.Ctx, r *core.Report) {
 		nonNegReturns(c, r, forFn, nn)
 	})
 
-	rule(r, "C11.R3", "NewCalculator: multiplier = volume × float64(frequency), divided on every path by CDF(window − frequency) − CDF(0) (renormalisation by the probability mass inside the window)", func() {
-		nc := c.MustFn(gpkg, "NewCalculator")
-		n := 0
-		for _, ret := range an.Returns(nc) {
-			lit := an.StructLiteralOf(ret.Results[0])
-			if lit == nil {
-				continue
-			}
-			v := an.LiteralFields(lit)["multiplier"]
-			if v == nil {
-				r.Violation("NewCalculator#multiplier", an.Pos(c, ret), "Calculator.multiplier is not set")
-				continue
-			}
-			n++
-			d := an.D().Of(v)
-			q, isQ := noConv(v).(*ssa.BinOp)
-			if _, isPhi := noConv(v).(*ssa.Phi); isPhi || strings.HasPrefix(d, "phi(") || strings.HasPrefix(d, "var:") {
-				r.Violation("NewCalculator#multiplier", an.Pos(c, ret), "the multiplier is renormalised only on some paths (%s): windows that do not take the correction deliver only the in-window fraction of the volume", d)
-				continue
-			}
-			ok := isQ && q.Op == token.QUO
-			if ok {
-				num, den := an.D().Of(q.X), an.D().Of(q.Y)
-				ok = strings.Contains(num, "$volume") && strings.Contains(num, "$frequency") && strings.Count(den, ".CDF(") == 2 && strings.Contains(den, "($repeatWindow - $frequency)") && strings.Contains(den, ", 0)") && strings.Contains(den, " - ")
-			}
-			r.Check(ok, "NewCalculator#multiplier", an.Pos(c, ret), "multiplier ← "+d, "multiplier is "+d+", not volume·frequency / (CDF(window−frequency) − CDF(0))")
+	rule(r, "C11.R3", "the calculator's scale factor is volume × float64(frequency), divided on every path by CDF(window − frequency) − CDF(0) (renormalisation by the probability mass inside the window)", func() {
+		if scaleFld == nil {
+			r.Violation(core.FuncName(forFn)+"#scale", c.Pos(forFn.Pos()), "the rate method does not scale the density by a field of the calculator")
+			return
 		}
-		r.Floor("Calculator literals", n, 1)
+		n := 0
+		for _, fn := range c.AllFuncs {
+			if core.RelPkg(fn) != gpkg {
+				continue
+			}
+			for _, ret := range an.Returns(fn) {
+				if len(ret.Results) == 0 {
+					continue
+				}
+				lit := an.StructLiteralOf(ret.Results[0])
+				if lit == nil || !an.IsNamed(lit.Type(), core.ModPath+"/"+gpkg, "Calculator") {
+					continue
+				}
+				if len(ret.Results) == 2 && !isNilConst(ret.Results[1]) {
+					continue
+				}
+				n++
+				key := core.FuncName(fn) + "#" + scaleFld.Name()
+				// the value of the field when the function returns: the store reaching the return
+				var v ssa.Value
+				for _, ref := range an.Referrers(lit) {
+					if fa, ok := ref.(*ssa.FieldAddr); ok && an.SameField(an.FieldOfAddr(fa), scaleFld) {
+						for _, st := range an.StoresTo(fa) {
+							if an.Dominates(st, ret) {
+								v = st.Val
+							}
+						}
+					}
+				}
+				if v == nil {
+					r.Violation(key, an.Pos(c, ret), "the scale factor is not set on every path")
+					continue
+				}
+				d := an.D().Of(v)
+				q, isQ := noConv(v).(*ssa.BinOp)
+				if _, isPhi := noConv(v).(*ssa.Phi); isPhi || strings.HasPrefix(d, "phi(") || strings.HasPrefix(d, "var:") {
+					r.Violation(key, an.Pos(c, ret), "the scale factor is renormalised only on some paths (%s): windows that do not take the correction deliver only the in-window fraction of the volume", d)
+					continue
+				}
+				ok := isQ && q.Op == token.QUO
+				if ok {
+					num, den := an.D().Of(q.X), an.D().Of(q.Y)
+					ok = strings.Contains(num, "$volume") && strings.Contains(num, "$frequency") && strings.Count(den, ".CDF(") == 2 && strings.Contains(den, "($repeatWindow - $frequency)") && strings.Contains(den, ", 0)") && strings.Contains(den, " - ")
+				}
+				r.Check(ok, key, an.Pos(c, ret), "scale ← "+d, "the scale factor is "+d+", not volume·frequency / (CDF(window−frequency) − CDF(0))")
+			}
+		}
+		r.Floor("Calculator constructions", n, 1)
 	})
 }
 
 // ---------------------------------------------------------------- C12
+
+// distCells finds, by role, the captured variables of a distributing closure: the step counter (the int cell
+// compared with 0 to guard the evaluation of the wrapped rate), the per-cycle count cell (stored from the
+// evaluation), and the cell holding the number of steps per cycle (what the counter is reloaded from).
+type distCells struct {
+	eval     *ssa.Call
+	steps    cell
+	rate     cell
+	perCycle *ssa.FreeVar
+	ok       bool
+	why      string
+}
+
+func findDistCells(fn *ssa.Function) distCells {
+	var d distCells
+	var evals []*ssa.Call
+	for _, call := range an.AllCalls(fn) {
+		if n := an.DynCallType(call); n != nil && an.IsNamed(n, apiPkg, "RateFunction") {
+			if cv, ok := call.(*ssa.Call); ok {
+				evals = append(evals, cv)
+			}
+		}
+	}
+	if len(evals) != 1 {
+		d.why = sprintf("%d evaluation sites of the wrapped rate (expected one)", len(evals))
+		return d
+	}
+	d.eval = evals[0]
+	for _, g := range an.GuardsOf(d.eval.Block()) {
+		bo, ok := g.Cond.(*ssa.BinOp)
+		if !ok || bo.Op != token.EQL || !g.Polarity {
+			continue
+		}
+		if z, isZ := constInt(bo.Y); !isZ || z != 0 {
+			continue
+		}
+		if u, ok := bo.X.(*ssa.UnOp); ok && u.Op == token.MUL {
+			if fv, ok := u.X.(*ssa.FreeVar); ok {
+				d.steps = cell{name: fv.Name(), fv: fv}
+			}
+		}
+	}
+	if d.steps.fv == nil {
+		d.why = "the wrapped rate is evaluated outside a `stepCounter == 0` guard: more (or fewer) than one evaluation per cycle"
+		return d
+	}
+	for _, in := range d.eval.Block().Instrs {
+		st, ok := in.(*ssa.Store)
+		if !ok {
+			continue
+		}
+		fv, isFV := st.Addr.(*ssa.FreeVar)
+		if !isFV {
+			continue
+		}
+		if an.Strip(st.Val) == ssa.Value(d.eval) {
+			d.rate = cell{name: fv.Name(), fv: fv}
+		}
+		if fv == d.steps.fv {
+			if u, ok := st.Val.(*ssa.UnOp); ok && u.Op == token.MUL {
+				d.perCycle, _ = u.X.(*ssa.FreeVar)
+			}
+		}
+	}
+	d.ok = true
+	return d
+}
 
 func c12(c *core.Ctx, r *core.Report) {
 	r.Explanation = "Decided structurally: (R1) cycle protocol of both distributions — the wrapped rate is evaluated only under the guard remainingSteps == 0, which also reloads remainingSteps from tickSteps (and clears the regular distribution's accumulator); every path through the closure decrements remainingSteps exactly once; " +
@@ -448,11 +653,27 @@ func c12(c *core.Ctx, r *core.Report) {
 	r.NotDecided = []string{"exact sum and evenness (±1) of the regular distribution's float accumulation"}
 	apkg := "internal/trigger/api"
 
+	// the distributing closures, by role: function literals of the package that evaluate a wrapped RateFunction
+	// under a step-counter guard; the random one also calls a captured func(int) int
 	closures := map[string]*ssa.Function{}
 	for _, fn := range c.AllFuncs {
-		if core.RelPkg(fn) == apkg && fn.Parent() != nil && (fn.Parent().Name() == "withRegularDistribution" || fn.Parent().Name() == "withRandomDistribution") {
-			closures[fn.Parent().Name()] = fn
+		if core.RelPkg(fn) != apkg || fn.Parent() == nil {
+			continue
 		}
+		// literals returned by a function of signature (…) (time.Duration, RateFunction)
+		par := fn.Parent()
+		if par.Signature.Results().Len() != 2 || !isDuration(par.Signature.Results().At(0).Type()) || !an.IsNamed(par.Signature.Results().At(1).Type(), apiPkg, "RateFunction") {
+			continue
+		}
+		kind := "withRegularDistribution"
+		for _, call := range an.AllCalls(fn) {
+			if an.Callee(call) == nil && !call.Common().IsInvoke() {
+				if sig, ok := call.Common().Value.Type().Underlying().(*types.Signature); ok && an.DynCallType(call) == nil && sig.Params().Len() == 1 && isIntType(sig.Params().At(0).Type()) {
+					kind = "withRandomDistribution"
+				}
+			}
+		}
+		closures[kind] = fn
 	}
 
 	rule(r, "C12.R1", "cycle protocol: the wrapped rate is evaluated only when remainingSteps == 0, in the block that reloads remainingSteps = tickSteps and the per-cycle state; remainingSteps is decremented by one exactly once on every path; no other writes", func() {
@@ -460,52 +681,26 @@ func c12(c *core.Ctx, r *core.Report) {
 			return
 		}
 		for name, fn := range closures {
-			steps, ok := freeCell(fn, "remainingSteps")
-			if !ok {
-				r.Undecided(name+"#cells", c.Pos(fn.Pos()), "captured variable remainingSteps not found")
+			dc := findDistCells(fn)
+			if !dc.ok {
+				r.Violation(name+"#eval-guard", c.Pos(fn.Pos()), "%s", dc.why)
 				continue
 			}
-			// evaluation sites
-			var evals []ssa.CallInstruction
-			for _, call := range an.AllCalls(fn) {
-				if n := an.DynCallType(call); n != nil && an.IsNamed(n, apiPkg, "RateFunction") {
-					evals = append(evals, call)
-				}
-			}
-			if len(evals) != 1 {
-				r.Violation(name+"#eval-sites", c.Pos(fn.Pos()), "%d evaluation sites of the wrapped rate (expected one)", len(evals))
-				continue
-			}
-			ev := evals[0]
-			guarded := false
-			for _, g := range an.GuardsOf(ev.Block()) {
-				bo, ok := g.Cond.(*ssa.BinOp)
-				if ok && bo.Op == token.EQL && steps.loadOf(bo.X) && an.D().Of(bo.Y) == "0" && g.Polarity {
-					guarded = true
-				}
-			}
-			r.Check(guarded, name+"#eval-guard", an.Pos(c, ev), "wrapped rate evaluated only when remainingSteps == 0", "the wrapped rate is evaluated outside the `remainingSteps == 0` guard: more (or fewer) than one evaluation per cycle")
-			// reload in the same block
-			reload, accReset, rateStore := false, false, false
+			steps := dc.steps
+			ev := ssa.CallInstruction(dc.eval)
+			r.OK(name+"#eval-guard", an.Pos(c, ev), "wrapped rate evaluated only when the step counter %s == 0", steps.name)
+			r.Check(dc.perCycle != nil, name+"#reload", an.Pos(c, ev), "step counter reloaded from the steps-per-cycle value together with the evaluation", "the cycle start does not reload the step counter from the steps-per-cycle value")
+			r.Check(dc.rate.fv != nil, name+"#rate-kept", an.Pos(c, ev), "the evaluation's result is kept for the cycle", "the evaluation's result is not stored for the cycle")
+			accReset := false
 			for _, in := range ev.Block().Instrs {
-				st, ok := in.(*ssa.Store)
-				if !ok {
-					continue
-				}
-				if steps.addrIs(st.Addr) && strings.HasSuffix(an.D().Of(st.Val), "tickSteps") || steps.addrIs(st.Addr) && strings.Contains(an.D().Of(st.Val), "Milliseconds") {
-					reload = true
-				}
-				if fv, ok := st.Addr.(*ssa.FreeVar); ok {
-					if an.Strip(st.Val) == ssa.Value(ev.(*ssa.Call)) {
-						rateStore = true
-					}
-					if b, isB := fv.Type().(*types.Pointer).Elem().Underlying().(*types.Basic); isB && b.Info()&types.IsFloat != 0 && an.D().Of(st.Val) == "0" {
-						accReset = true
+				if st, ok := in.(*ssa.Store); ok {
+					if fv, ok := st.Addr.(*ssa.FreeVar); ok {
+						if b, isB := fv.Type().(*types.Pointer).Elem().Underlying().(*types.Basic); isB && b.Info()&types.IsFloat != 0 && an.D().Of(st.Val) == "0" {
+							accReset = true
+						}
 					}
 				}
 			}
-			r.Check(reload, name+"#reload", an.Pos(c, ev), "remainingSteps reloaded from tickSteps with the evaluation", "the cycle start does not reload remainingSteps from tickSteps")
-			r.Check(rateStore, name+"#rate-kept", an.Pos(c, ev), "the evaluation's result is kept for the cycle", "the evaluation's result is not stored for the cycle")
 			// float accumulators must be cleared at cycle start
 			for _, k := range cellsOf(fn) {
 				if b, isB := k.fv.Type().(*types.Pointer).Elem().Underlying().(*types.Basic); isB && b.Info()&types.IsFloat != 0 {
@@ -559,7 +754,11 @@ func c12(c *core.Ctx, r *core.Report) {
 		}
 		r.Check(sawNone, "NewDistribution#none-case", c.Pos(nd.Pos()), "case none present", "NewDistribution has no pass-through case for distribution none")
 		for _, name := range []string{"withRegularDistribution", "withRandomDistribution"} {
-			fn := c.MustFn(apkg, name)
+			if closures[name] == nil {
+				r.Undecided(name, "-", "distributing closure not found")
+				continue
+			}
+			fn := closures[name].Parent()
 			short, long := 0, 0
 			for _, ret := range an.Returns(fn) {
 				d0, d1 := an.D().Of(ret.Results[0]), an.D().Of(ret.Results[1])
@@ -579,13 +778,15 @@ func c12(c *core.Ctx, r *core.Report) {
 				}
 			}
 			r.Check(short == 1 && long == 1, name+"#cases", c.Pos(fn.Pos()), "one pass-through return and one distributing return", sprintf("%s has %d pass-through and %d distributing returns", name, short, long))
-			// tickSteps
+			// steps per cycle
 			if cl := closures[name]; cl != nil {
-				if fv, ok := freeCell(cl, "tickSteps"); ok {
-					if b := an.FreeVarBinding(fv.fv); b != nil {
-						d := an.D().Of(b)
-						r.Check(d == "((time.Duration).Milliseconds($iterationDuration) / (time.Duration).Milliseconds(100000000))", name+"#tickSteps", c.Pos(fn.Pos()), "tickSteps ← "+d, "tickSteps is "+d+", not interval_ms / 100")
+				if dc := findDistCells(cl); dc.ok && dc.perCycle != nil {
+					if b := an.FreeVarBinding(dc.perCycle); b != nil {
+						d := an.DI().Of(b)
+						r.Check(d == "((time.Duration).Milliseconds($iterationDuration) / (time.Duration).Milliseconds(100000000))", name+"#tickSteps", c.Pos(fn.Pos()), "steps per cycle ← "+d, "steps per cycle is "+d+", not interval_ms / 100")
 					}
+				} else {
+					r.Undecided(name+"#tickSteps", c.Pos(fn.Pos()), "steps-per-cycle value not found")
 				}
 			}
 		}
@@ -596,12 +797,12 @@ func c12(c *core.Ctx, r *core.Report) {
 		if fn == nil {
 			panic(core.AnchorError{What: "withRandomDistribution closure"})
 		}
-		rem, ok := freeCell(fn, "remainingRate")
-		steps, ok2 := freeCell(fn, "remainingSteps")
-		if !ok || !ok2 {
-			r.Undecided("random#cells", c.Pos(fn.Pos()), "captured variables not found")
+		dc := findDistCells(fn)
+		if !dc.ok || dc.rate.fv == nil {
+			r.Undecided("random#cells", c.Pos(fn.Pos()), "captured variables not found: %s", dc.why)
 			return
 		}
+		rem, steps := dc.rate, dc.steps
 		// the subtracting store
 		var cur ssa.Value
 		for _, st := range rem.stores(fn) {
@@ -625,7 +826,10 @@ func c12(c *core.Ctx, r *core.Report) {
 				guard := false
 				for _, g := range an.GuardsOf(ret.Block()) {
 					bo, isB := g.Cond.(*ssa.BinOp)
-					if isB && bo.X == cur && bo.Op == token.LSS && an.D().Of(bo.Y) == "1" && g.Polarity {
+					if isB && bo.X == cur && an.D().Of(bo.Y) == "1" && ((bo.Op == token.LSS && g.Polarity) || (bo.Op == token.GEQ && !g.Polarity)) {
+						guard = true
+					}
+					if isB && bo.X == cur && an.D().Of(bo.Y) == "0" && ((bo.Op == token.LEQ && g.Polarity) || (bo.Op == token.GTR && !g.Polarity)) {
 						guard = true
 					}
 				}
